@@ -436,6 +436,20 @@ def bounded(tier, seed):
                     ee = (e.year, e.month, e.day, e.hour, e.minute, e.second)
                     if ge != ee:
                         return 'offset %r days: getTimes %r, cftime %r' % (o, ge, ee)
+                # the same axis read as cell edges (bounds=True) from a time_bounds variable: consecutive whole days
+                days = list(range(55, 64)) + list(range(360, 370))
+                fb = mkfile([float(o) + 0.5 for o in days[:-1]], unitstr, cal)
+                fb.createDimension('tnv', 2)
+                tb = fb.createVariable('time_bounds', 'd', ('time', 'tnv'), values=np.array([days[:-1], days[1:]], 'd').T)
+                tb.units = unitstr
+                fb.variables['time'].bounds = 'time_bounds'
+                gotb = fb.getTimes(bounds=True)
+                expb = cftime.num2date(np.array(days, 'd'), unitstr, calendar=cal)
+                if len(gotb) != len(expb):
+                    return 'bounds=True: %d edges, expected %d' % (len(gotb), len(expb))
+                for g, e, o in zip(gotb, expb, days):
+                    if (g.year, g.month, g.day, g.hour) != (e.year, e.month, e.day, e.hour):
+                        return 'bounds=True, edge at %r days: getTimes %r, cftime %r' % (o, (g.year, g.month, g.day, g.hour), (e.year, e.month, e.day, e.hour))
                 return None
             run.case('C12:CF-365-day:whole days before and after a 1 January reference', (unitstr, cal), t)
     # IOAPI flags and attributes vs independent julian arithmetic
